@@ -10,16 +10,18 @@ Deductive (pymap/imap/state.py, contracts/state.py):
   do_close     answers OK and deselects for every selection (read-only included), raises nothing
 Bounded (real server, harness/e2e_states.py): all command sequences of length <= 2 over 45 commands (every built-in
 command, valid/invalid arguments, existing/missing mailboxes, AUTHENTICATE exchanges incl. cancel and bad base64) after
-six state prefixes, against the RFC automaton; stands in for IMAPConnection._run_state (AUTHENTICATE / IDLE dispatch
-around do_command), whose loop/try nest is outside the verifier's subset.
+eight state prefixes, against the RFC automaton.
+  IMAPConnection._run_state (contracts/runstate.py): do_authenticate -- which installs a session without passing
+               do_command's gate -- and the SASL exchange are reached only while the state is not authenticated; every
+               other AUTHENTICATE goes through do_command.
 """
 from pyvc.prop import Property, Bounded
-from . import state as ST
+from . import state as ST, runstate as RS
 from harness.e2e_states import bounded_states
 
 PROPERTY = Property(
     'C05', 'Connection state machine follows RFC 3501 section 3',
-    contracts=[ST.do_command_sel, ST.do_command_nosel, ST.do_select, ST.do_close], registry=ST.REG,
+    contracts=[ST.do_command_sel, ST.do_command_nosel, ST.do_select, ST.do_close] + RS.CONTRACTS, registry=ST.REG,
     bounded=[Bounded('command sequences vs. the RFC 3501 automaton (real server)',
                      'every sequence of 1 and 2 commands from 45 (complete built-in command set; valid and invalid '
                      'arguments; existing and missing mailboxes; LOGIN good/bad; AUTHENTICATE PLAIN good/bad/cancel/'
